@@ -187,6 +187,8 @@ def main() -> None:
             o.status, o.detail = UNDECIDED, f"constructor shape changed: {sh}"
     if set(shape) != CODED:
         chk.fault(f"coded exception classes not found: {CODED - set(shape)}")
+    for cls in sorted(shape):
+        verify_constructor_body(chk, cls, cat)
 
     import re
     code_like = re.compile(r"^\d+(-\d+){2,3}$")
@@ -292,6 +294,105 @@ def main() -> None:
                "(flow-insensitive, narrowed only by an enclosing `if name is not None`)")
     chk.samples = [o.to_json() for o in chk.obs if o.status == REFUTED][:4] + [o.to_json() for o in chk.obs[4:7]]
     chk.finish()
+
+
+def verify_constructor_body(chk: Check, cls: str, cat: Dict[str, str]) -> None:
+    """Callee side of the contract: under the call-site precondition (code catalogued, placeholders supplied)
+    the real constructor body never raises, for every value of the module global `dataset_output`.
+
+    Symbolic execution (vc.pyvc) of <cls>.__init__ with: centralised_messages = abstract catalogue whose
+    entry templates only support `.format(**kwargs)` with the constructor's own kwargs (that is exactly what the
+    call-site precondition guarantees to be safe); dataset_output = None or an arbitrary string.
+    Any other str.format on a non-constant string, any other raise, is an obligation failure.
+    """
+    from vc import smt
+    from vc.pycheck import discharge
+    from vc.pyvc import Engine, ObjV, OutsideSubset, PathResult
+    rel = "Exceptions/__init__.py"
+    f = f"src/vtlengine/{rel}:{cls}.__init__::body"
+    eng = Engine()
+
+    class Template:
+        def __init__(self, code: Any) -> None:
+            self.code = code
+
+        def _pyvc_format(self, e: Any, args: Any, kwargs: Any) -> Any:
+            e.effects.append(("catalogue-format", self.code))
+            e.oblige(not args and kwargs.get("__site_kwargs__") is True, "catalogue template formatted with exactly the constructor's **kwargs")
+            return e.decls.fresh("rendered", smt.STR)
+
+        def _pyvc_binop(self, e: Any, op: str, other: Any, refl: bool) -> Any:
+            # a string built from the template and something else is no longer a constant template
+            return e.decls.fresh("template_plus_data", smt.STR)
+
+    class Entry:
+        def __init__(self, code: Any) -> None:
+            self.code = code
+
+        def _pyvc_getitem(self, e: Any, key: Any) -> Any:
+            if key == "message":
+                return Template(self.code)
+            raise OutsideSubset(f"catalogue entry field {key!r}")
+
+    class Catalogue:
+        def _pyvc_getitem(self, e: Any, key: Any) -> Any:
+            e.oblige(key is CODE, "catalogue is indexed with the constructor's `code` argument")
+            return Entry(key)
+
+    CODE = eng.sym_str("code")
+    KW: Dict[str, Any] = {"__site_kwargs__": True}
+    do_none = eng.sym_bool("dataset_output.is_none")
+    do_val = eng.sym_str("dataset_output.value")
+
+    def setup(e: Any) -> None:
+        e.gstate[("Exceptions/messages.py", "centralised_messages")] = Catalogue()
+        e.gstate[(rel, "centralised_messages")] = Catalogue()
+        e.gstate[(rel, "dataset_output")] = None if e.decide(do_none) else do_val
+
+    try:
+        fn = eng.func(rel, f"{cls}.__init__")
+        self_obj = ObjV(eng.lookup_global(rel, cls))
+        if cls == "InputValidationException":
+            paths = eng.explore(fn, [self_obj], dict(KW, code=CODE), setup=setup)
+        else:
+            paths = eng.explore(fn, [self_obj, CODE], dict(KW), setup=setup)
+    except Exception as e:  # noqa: BLE001
+        o = chk.ob(f"{f}::never-raises", f, "constructor body never raises under the call-site precondition")
+        o.status, o.detail = UNDECIDED, f"symbolic execution failed: {type(e).__name__}: {e}"
+        return
+    chk.under_contract(f)
+
+    def replay(model: Dict[str, str], p: PathResult) -> Any:
+        core.boot(full=False)
+        import importlib
+        ex = importlib.import_module("vtlengine.Exceptions")
+        klass = getattr(ex, cls)
+        code = next(c for c, m in cat.items() if not placeholders(m)[0])
+        cands = []
+        if "dataset_output.value" in model:
+            cands.append(core.smt_str(model["dataset_output.value"]))
+        cands += ["DS_{r}", "{", "}", "{0}", "a{}b"]
+        saved = ex.dataset_output
+        try:
+            for v in cands:
+                ex.dataset_output = v
+                try:
+                    klass(code=code) if cls == "InputValidationException" else klass(code)
+                except Exception as err:  # noqa: BLE001
+                    return True, f"with Exceptions.dataset_output={v!r}, constructing the real {cls}({code!r}) raises " \
+                                 f"{type(err).__name__}: {err}", {"dataset_output": v, "code": code, "class": cls}
+        finally:
+            ex.dataset_output = saved
+        return None, "no failing dataset_output value found among the model value and the format-hostile probes", None
+
+    discharge(chk, eng, f, "never-raises",
+              "requires code in catalogue /\\ placeholders <= kwargs; ensures: returns normally for every value of "
+              "Exceptions.dataset_output (None or any string); the only str.format is catalogue[code]['message']"
+              ".format(**kwargs)",
+              paths, [], lambda p: p.kind == "return" and any(e[0] == "catalogue-format" for e in p.effects),
+              ["dataset_output.value"], replay, lambda m, p: f"{cls}.__init__::body")
+    chk.assume("constructor-body contract: str.format on the catalogue template with the site's kwargs is the only "
+               "formatting the call-site precondition makes safe; base Exception.__init__ never raises")
 
 
 def replay_construct(o: Any, cls: str, code: Optional[str], message: Optional[str], kw: Set[str],
